@@ -21,7 +21,8 @@
 (***************************************************************************)
 EXTENDS Integers, Sequences, FiniteSets, TLC, Json
 
-CONSTANTS KeyFields, HaloAtGet, AtomicPut, CatchLoad, MaxCrashes
+CONSTANTS KeyFields, HaloAtGet, AtomicPut, CatchLoad, MaxCrashes,
+          FreeRequests   \* 0: the scenarios below | n > 0: n requests drawn freely from the WHOLE request space (simulation mode)
 
 Params == {"srcvals", "shape", "z", "profiles", "domain", "levels", "modes", "meas_pt", "bg", "analytic", "halo", "precision"}
 \* in footprint mode the values of the source do not matter, everything else does
@@ -37,8 +38,9 @@ AbsentE == Entry("absent", NoVal)
 PartialE == Entry("partial", NoVal)
 KeyGet(r) == [p \in KeyFields |-> IF HaloAtGet = "resolved" THEN Resolve(r)[p] ELSE r[p]]
 KeyPut(r) == [p \in KeyFields |-> Resolve(r)[p]]
-Keys == {KeyGet(r) : r \in {R0, [R0 EXCEPT !["halo"] = 1], [R0 EXCEPT !["halo"] = 2], [R0 EXCEPT !["halo"] = 3]} \cup {Variant(f) : f \in Params}}
-        \cup {KeyPut(r) : r \in {R0, [R0 EXCEPT !["halo"] = 1], [R0 EXCEPT !["halo"] = 2], [R0 EXCEPT !["halo"] = 3]} \cup {Variant(f) : f \in Params}}
+\* the whole request space (free mode) and the requests the scenarios use
+AllRequests == {[p \in Params |-> IF p = "halo" THEN h ELSE b[p]] : h \in 0..3, b \in [Params \ {"halo"} -> 0..1]}
+ScenarioRequests == {R0, [R0 EXCEPT !["halo"] = 1], [R0 EXCEPT !["halo"] = 2], [R0 EXCEPT !["halo"] = 3]} \cup {Variant(f) : f \in Params}
 
 (***************************************************************************)
 (* Scenarios: sequences of operations.                                     *)
@@ -60,7 +62,7 @@ Scenarios ==
     \cup {<<Req(HaloR(2)), <<"corrupt", HaloR(2)>>, Req(HaloR(2)), Req(HaloR(2))>>}
 
 VARIABLES
-    vstore,     \* key -> [st: "absent" | "partial" | "complete", val: result token]
+    vstore,     \* the directory: a finite map from the keys written so far to [st: "partial" | "complete", val: result token]
     vtmp,       \* number of stray temporary files left by crashes (they must never be read)
     vtodo,      \* remaining operations
     vpc,        \* "idle" | "lookup" | "solve" | "put" | "commit" | "return" | "fatal"
@@ -69,68 +71,92 @@ VARIABLES
     vsolved,    \* did this request run the solver
     vhit,       \* did the lookup return a stored entry
     vlog,       \* history of finished operations (observation only)
-    vcrashes    \* number of crashes so far
+    vcrashes,   \* number of crashes so far
+    vfree       \* free mode: requests still to be drawn
 
-chvars == <<vstore, vtmp, vtodo, vpc, vcur, vret, vsolved, vhit, vlog, vcrashes>>
+chvars == <<vstore, vtmp, vtodo, vpc, vcur, vret, vsolved, vhit, vlog, vcrashes, vfree>>
 
-Init == /\ vstore = [k \in Keys |-> AbsentE]
-        /\ vtmp = 0
-        /\ vtodo \in Scenarios
+Stored(k) == k \in DOMAIN vstore
+EntryOf(k) == IF Stored(k) THEN vstore[k] ELSE AbsentE
+Write(k, e) == [x \in (DOMAIN vstore) \cup {k} |-> IF x = k THEN e ELSE vstore[x]]
+
+Init == /\ vstore = << >>
+        /\ vtmp = 0 /\ vfree = FreeRequests
+        /\ IF FreeRequests = 0 THEN vtodo \in Scenarios ELSE vtodo = << >>
         /\ vpc = "idle" /\ vcur = R0 /\ vret = NoVal /\ vsolved = FALSE /\ vhit = FALSE
         /\ vlog = << >> /\ vcrashes = 0
 
 Start ==    /\ vpc = "idle" /\ vtodo # << >> /\ Head(vtodo)[1] = "req"
             /\ vcur' = Head(vtodo)[2] /\ vtodo' = Tail(vtodo)
             /\ vpc' = "lookup" /\ vret' = NoVal /\ vsolved' = FALSE /\ vhit' = FALSE
-            /\ UNCHANGED <<vstore, vtmp, vlog, vcrashes>>
+            /\ UNCHANGED <<vstore, vtmp, vlog, vcrashes, vfree>>
+
+\* the draw: one uniformly random request of the whole space (TLC's RandomElement; simulation mode), every request seen
+\* before (repetitions are what a cache is for), and every one-parameter change of the last request
+FreeCandidates == {RandomElement(AllRequests)} \cup {vlog[i].req : i \in {j \in 1..Len(vlog) : vlog[j].op = "req"}}
+                  \cup {[vcur EXCEPT ![f] = 1 - @] : f \in Params \ {"halo"}} \cup {[vcur EXCEPT !["halo"] = h] : h \in 0..3}
+\* free mode: any request of the whole space, a process boundary or a corruption of the entry just used may come next
+FreeStart == /\ vpc = "idle" /\ vtodo = << >> /\ vfree > 0
+             /\ \E r \in FreeCandidates :
+                  /\ vcur' = r /\ vpc' = "lookup" /\ vret' = NoVal /\ vsolved' = FALSE /\ vhit' = FALSE
+             /\ vfree' = vfree - 1
+             /\ UNCHANGED <<vstore, vtmp, vtodo, vlog, vcrashes>>
+FreeNewProc == /\ vpc = "idle" /\ vtodo = << >> /\ vfree > 0 /\ vlog # << >> /\ vlog[Len(vlog)].op = "req"
+               /\ vlog' = Append(vlog, [op |-> "newproc"])
+               /\ UNCHANGED <<vstore, vtmp, vtodo, vpc, vcur, vret, vsolved, vhit, vcrashes, vfree>>
+FreeCorrupt == /\ vpc = "idle" /\ vtodo = << >> /\ vfree > 0 /\ vlog # << >> /\ vlog[Len(vlog)].op = "req"
+               /\ Stored(KeyGet(vcur))
+               /\ vstore' = Write(KeyGet(vcur), PartialE)
+               /\ vlog' = Append(vlog, [op |-> "corrupt", req |-> vcur])
+               /\ UNCHANGED <<vtmp, vtodo, vpc, vcur, vret, vsolved, vhit, vcrashes, vfree>>
 
 NewProc ==  /\ vpc = "idle" /\ vtodo # << >> /\ Head(vtodo)[1] = "newproc"      \* nothing of the cache lives in memory
             /\ vtodo' = Tail(vtodo) /\ vlog' = Append(vlog, [op |-> "newproc"])
-            /\ UNCHANGED <<vstore, vtmp, vpc, vcur, vret, vsolved, vhit, vcrashes>>
+            /\ UNCHANGED <<vstore, vtmp, vpc, vcur, vret, vsolved, vhit, vcrashes, vfree>>
 
 Corrupt ==  /\ vpc = "idle" /\ vtodo # << >> /\ Head(vtodo)[1] = "corrupt"
             /\ LET k == KeyGet(Head(vtodo)[2]) IN
-               vstore' = [vstore EXCEPT ![k] = IF @.st = "absent" THEN AbsentE ELSE PartialE]
+               vstore' = IF Stored(k) THEN Write(k, PartialE) ELSE vstore
             /\ vtodo' = Tail(vtodo) /\ vlog' = Append(vlog, [op |-> "corrupt", req |-> Head(vtodo)[2]])
-            /\ UNCHANGED <<vtmp, vpc, vcur, vret, vsolved, vhit, vcrashes>>
+            /\ UNCHANGED <<vtmp, vpc, vcur, vret, vsolved, vhit, vcrashes, vfree>>
 
 Lookup ==   /\ vpc = "lookup"                                   \* cache.get: exists? load
-            /\ LET e == vstore[KeyGet(vcur)] IN
+            /\ LET e == EntryOf(KeyGet(vcur)) IN
                CASE e.st = "absent"  -> vpc' = "solve" /\ UNCHANGED <<vret, vhit>>
                  [] e.st = "partial" -> IF CatchLoad THEN vpc' = "solve" /\ UNCHANGED <<vret, vhit>>
                                      ELSE vpc' = "fatal" /\ UNCHANGED <<vret, vhit>>
                  [] OTHER         -> vpc' = "return" /\ vret' = e.val /\ vhit' = TRUE
-            /\ UNCHANGED <<vstore, vtmp, vtodo, vcur, vsolved, vlog, vcrashes>>
+            /\ UNCHANGED <<vstore, vtmp, vtodo, vcur, vsolved, vlog, vcrashes, vfree>>
 
 SolveStep == /\ vpc = "solve"
              /\ vret' = Sol(vcur) /\ vsolved' = TRUE /\ vpc' = "put"
-             /\ UNCHANGED <<vstore, vtmp, vtodo, vcur, vhit, vlog, vcrashes>>
+             /\ UNCHANGED <<vstore, vtmp, vtodo, vcur, vhit, vlog, vcrashes, vfree>>
 
 PutBegin == /\ vpc = "put"                                      \* cache.put starts writing
             /\ IF AtomicPut THEN vtmp' = vtmp + 1 /\ UNCHANGED vstore
-               ELSE vstore' = [vstore EXCEPT ![KeyPut(vcur)] = PartialE] /\ UNCHANGED vtmp
+               ELSE vstore' = Write(KeyPut(vcur), PartialE) /\ UNCHANGED vtmp
             /\ vpc' = "commit"
-            /\ UNCHANGED <<vtodo, vcur, vret, vsolved, vhit, vlog, vcrashes>>
+            /\ UNCHANGED <<vtodo, vcur, vret, vsolved, vhit, vlog, vcrashes, vfree>>
 
 PutCommit == /\ vpc = "commit"                                  \* write finished (rename)
-             /\ vstore' = [vstore EXCEPT ![KeyPut(vcur)] = Entry("complete", vret)]
+             /\ vstore' = Write(KeyPut(vcur), Entry("complete", vret))
              /\ vtmp' = IF AtomicPut THEN vtmp - 1 ELSE vtmp
              /\ vpc' = "return"
-             /\ UNCHANGED <<vtodo, vcur, vret, vsolved, vhit, vlog, vcrashes>>
+             /\ UNCHANGED <<vtodo, vcur, vret, vsolved, vhit, vlog, vcrashes, vfree>>
 
 Return ==   /\ vpc = "return"
             /\ vlog' = Append(vlog, [op |-> "req", req |-> vcur, ret |-> vret, solved |-> vsolved, hit |-> vhit])
             /\ vpc' = "idle"
-            /\ UNCHANGED <<vstore, vtmp, vtodo, vcur, vret, vsolved, vhit, vcrashes>>
+            /\ UNCHANGED <<vstore, vtmp, vtodo, vcur, vret, vsolved, vhit, vcrashes, vfree>>
 
 \* the process dies; whatever is on disk stays; the caller repeats the request in a new process
 Crash ==    /\ vpc \in {"lookup", "solve", "put", "commit"} /\ vcrashes < MaxCrashes
             /\ vlog' = Append(vlog, [op |-> "crash", req |-> vcur, at |-> vpc])
             /\ vtodo' = <<Req(vcur)>> \o vtodo
             /\ vpc' = "idle" /\ vcrashes' = vcrashes + 1
-            /\ UNCHANGED <<vstore, vtmp, vcur, vret, vsolved, vhit>>
+            /\ UNCHANGED <<vstore, vtmp, vcur, vret, vsolved, vhit, vfree>>
 
-Next == Start \/ NewProc \/ Corrupt \/ Lookup \/ SolveStep \/ PutBegin \/ PutCommit \/ Return \/ Crash
+Next == FreeStart \/ FreeNewProc \/ FreeCorrupt \/ Start \/ NewProc \/ Corrupt \/ Lookup \/ SolveStep \/ PutBegin \/ PutCommit \/ Return \/ Crash
 Spec == Init /\ [][Next]_chvars
 
 (******************************** properties ********************************)
@@ -146,9 +172,9 @@ Effective ==
         => vlog[j].hit /\ ~vlog[j].solved
 \* a partial entry is never what a lookup returns (it has no value in the model; this is the disk-side statement)
 \* entries on disk are right: a complete entry under key k holds the result of every request that maps to k
-StoreSound == \A k \in Keys : vstore[k].st = "complete" =>
-                 \A r \in {R0, HaloR(1), HaloR(2), HaloR(3)} \cup {Variant(f) : f \in Params} : KeyGet(r) = k => vstore[k].val = Sol(r)
+StoreSound == \A k \in DOMAIN vstore : vstore[k].st = "complete" =>
+                 \A r \in (IF FreeRequests = 0 THEN ScenarioRequests ELSE {vlog[i].req : i \in Reqs}) : KeyGet(r) = k => vstore[k].val = Sol(r)
 
-Emit == (vpc = "idle" /\ vtodo = << >>) => PrintT("@@" \o ToJson([log |-> vlog]))
+Emit == (vpc = "idle" /\ vtodo = << >> /\ vfree = 0) => PrintT("@@" \o ToJson([log |-> vlog]))
 \* observation variables are kept out of the fingerprint where they do not influence behaviour
 =============================================================================
